@@ -66,6 +66,18 @@ def _valid_sk(x):
     return T.raw_op('VALID_SK', x)
 
 
+def _not_a_sec_encoding(b):
+    """bytes whose leading byte is known and is not a SEC prefix (02 / 03 compressed, 04 uncompressed; the raw 64-byte form
+    python-ecdsa also accepts has no prefix at all): e.g. the private payload 0x00 || k handed to a public-key parser"""
+    first = None
+    if T.is_const(b) and isinstance(b[1], bytes) and b[1]:
+        first = b[1][0]
+    elif T.is_op(b, 'CAT') and len(b) > 2 and T.is_const(b[2]) and isinstance(b[2][1], bytes) and b[2][1]:
+        first = b[2][1][0]
+    n = T.length_of(b)
+    return first is not None and n in (33, 65) and first not in ((2, 3) if n == 33 else (4,))
+
+
 def _contract(ev, fr, facts, value):
     """A library call that raises unless `facts` hold.  Normally the facts become must-facts of the continuation (the
     raising path leaves the function); inside a try body whose handlers may catch the library's exception the two
@@ -659,6 +671,8 @@ def _ext_call(ev, dotted, args, kwargs, fr, node):
         a = _kw(args, kwargs, ['pubkey', 'compressed'], {'compressed': T.TRUE})
         return T.sec(a['pubkey'], T.truth(a['compressed']))
     if dotted == 'pysecp256k1.ec_pubkey_parse':
+        if _not_a_sec_encoding(args[0]):
+            return T.raise_('LibraryError')
         return _contract(ev, fr, [T.raw_op('ON_CURVE', args[0])], T.parse_pt(args[0]))
     if dotted == 'pysecp256k1.ec_seckey_tweak_add':
         k, t = args[0], args[1]
@@ -690,6 +704,8 @@ def _ext_call(ev, dotted, args, kwargs, fr, node):
         if T.truth(a['validate_point']) != T.TRUE:
             # the documented switch that skips the on-curve check: no validity contract, a different operator
             return T.raw_op('PARSE_PT_UNVALIDATED', a['string'], a['validate_point'])
+        if _not_a_sec_encoding(a['string']):
+            return T.raise_('LibraryError')
         return _contract(ev, fr, [T.raw_op('ON_CURVE', a['string'])], T.parse_pt(a['string']))
     if dotted == 'ecdsa.VerifyingKey.from_public_point':
         a = _kw(args, kwargs, ['point', 'curve', 'hashfunc', 'validate_point'], {'curve': T.ext('ecdsa.curves.NIST192p')})
@@ -850,6 +866,25 @@ def method_call(ev, recv, name, args, kwargs, fr, node):
             ev.reads.append((val, n, fr.fn.qual if fr.fn else None, node.lineno if node is not None else 0))
             ev.heap[recv[2][1]] = (data, end)
             return val
+        if name == 'tell' and not args and not kwargs:
+            return ev.heap[recv[2][1]][1]
+        if name == 'seek' and 1 <= len(args) <= 2 and not kwargs:
+            data, pos = ev.heap[recv[2][1]]
+            whence = args[1] if len(args) == 2 else T.const(0)
+            if whence == T.const(0):
+                new = args[0]
+            elif whence == T.const(1):
+                new = T.add(pos, args[0])
+            elif whence == T.const(2):
+                new = T.add(T.len_(data), args[0])
+            else:
+                return T.opaque('stream.seek with a symbolic whence')
+            ev.heap[recv[2][1]] = (data, new)
+            return new
+        if name in ('getvalue',) and not args:
+            return ev.heap[recv[2][1]][0]
+        if name in ('close', 'flush', 'readable', 'seekable'):
+            return T.NONE if name in ('close', 'flush') else T.TRUE
         return T.opaque('stream.%s' % name)
     if tb == 'point':
         if name == 'to_string':
